@@ -15,6 +15,7 @@ From Coq Require Import ZArith List Bool.
 From CAres.Base Require Import Outcome.
 From CAres.Gen Require Import Consts.
 From CAres.Core Require Import Accept Accept_proofs.
+From CAres.Core Require Cookie Accept_cookie_equiv.
 Import ListNotations.
 Local Open Scope Z_scope.
 
@@ -207,3 +208,22 @@ Theorem C05_example_malformed_dropped_with_patch :
     map q_try (ch_queries st) = [0] /\ map q_conn (ch_queries st) = [Some 10].
 Proof. exact malformed_inert_with_drop_stmt. Qed.
 Print Assumptions C05_example_malformed_dropped_with_patch.
+
+(* ---- glue to C17: the cookie decision inside the accept path (Accept.cookie_decide) is the
+   decision of the cookie component model (Cookie.cookie_validate, property C17), under the
+   abstraction rel_ck that forgets what the accept path never reads ------------------------- *)
+Theorem C05_cookie_decision_agrees_with_cookie_component :
+  forall (a : Accept.cookie) (c : Cookie.cookie) (reqc resp : option Accept.bytes)
+         (rcode s u tr : Z) (tcp sent : bool),
+  Accept_cookie_equiv.rel_ck a c -> Accept.zlen (Accept.ck_client a) = 8 ->
+  Accept.cookie_len_ok reqc = true -> Cookie.norm_cookie resp = resp -> 0 <= tr < 2 ^ 64 - 1 ->
+  exists a' d c' q' status rq,
+    Accept.cookie_decide a reqc resp rcode s u = Ok (a', d) /\
+    Cookie.cookie_validate c (Cookie.mkQ (Accept_cookie_equiv.req_of reqc) tr tcp sent) resp rcode
+                           (Cookie.mkTv s u) = Ok (c', q', status, rq) /\
+    Accept_cookie_equiv.rel_ck a' c' /\ Accept_cookie_equiv.agree d status rq /\
+    (d <> Accept.CRequeue -> q' = Cookie.mkQ (Accept_cookie_equiv.req_of reqc) tr tcp sent) /\
+    (d = Accept.CRequeue -> Cookie.q_try q' = tr + 1 /\
+                            Cookie.q_tcp q' = (if COOKIE_RESEND_MAX <=? tr + 1 then true else tcp)).
+Proof. exact Accept_cookie_equiv.cookie_decide_agrees. Qed.
+Print Assumptions C05_cookie_decision_agrees_with_cookie_component.
